@@ -244,6 +244,21 @@ def search(ck, tu, tcs, maxsize, seed):
             if list(back.shape) != sh or not torch.equal(back, x0) or m.shape[0] != math.prod(sh[:k]):
                 ck.finding("merge_split:not-inverse", "split(merge(x,%d)) != x for shape %s" % (k, sh),
                            {"search": "merge_split", "shape": sh, "k": k})
+            # the shape argument is the caller's: a list handed in is still that list afterwards, and can be used again
+            for mk_shape in (list, tuple):
+                shp = mk_shape([1, sh[0]])
+                keep = mk_shape(shp)
+                ra = attempt(tu.split_leading_dim, x, shp)
+                rb = attempt(tu.split_leading_dim, x, shp)
+                if shp != keep:
+                    ck.finding("split_leading_dim:mutates-argument-1", "split_leading_dim(x of shape %s, shape=%r) left its shape argument as %r" % (sh, keep, shp),
+                               {"search": "mutation", "fn": "split_leading_dim", "shape": sh})
+                    break
+                if ra[0] != rb[0] or (ra[0] == "ok" and list(ra[1].shape) != list(rb[1].shape)):
+                    ck.finding("split_leading_dim:second-call-differs", "two calls with the same %s shape object on x of shape %s: %s then %s"
+                               % (mk_shape.__name__, sh, list(ra[1].shape) if ra[0] == "ok" else ra[1:], list(rb[1].shape) if rb[0] == "ok" else rb[1:]),
+                               {"search": "mutation", "fn": "split_leading_dim", "shape": sh})
+                    break
             s2 = tu.split_leading_dim(x, [1, sh[0]])
             if not torch.equal(tu.merge_leading_dims(s2, 2), x0):
                 ck.finding("merge_split:not-inverse", "merge(split(x)) != x for shape %s" % (sh,),
